@@ -130,7 +130,7 @@ func refSequenceUnit(r refCfg, flight int) harness.Unit {
 				return
 			}
 			stream := append(append([]string{}, sent[0]...), sent[1]...)
-			verdict := refdev.Classify(stream, wants, r.libIsClient)
+			verdict := refdev.ClassifyFlights(sent, honest, wants, r.libIsClient)
 			tag := r.String()
 			key := ""
 			for i, e := range edits {
